@@ -56,7 +56,7 @@ def matches(entry: dict, sig: dict) -> bool:
 def write_replay(prop: str, violation: dict) -> str:
     body = json.dumps(violation, sort_keys=True, indent=1)
     digest = hashlib.sha1(body.encode()).hexdigest()[:16]
-    d = os.path.join(VERIF, "replays", prop)
+    d = os.path.join(os.environ.get("VERIF_OUT") or VERIF, "replays", prop)
     os.makedirs(d, exist_ok=True)
     path = os.path.join(d, f"{digest}.json")
     with open(path, "w") as fh:
@@ -225,8 +225,10 @@ def run(check_id: str, tier: str, seed: int, workers: int, with_coverage: bool =
         "wall_s": round(wall, 3),
         "violations": n_unknown,
     }
-    os.makedirs(os.path.join(VERIF, "evidence"), exist_ok=True)
-    ev_path = os.path.join(VERIF, "evidence", f"{prop}.json")
+    # (VERIF_OUT redirects evidence and replay files of a run against another tree, e.g. the seeded-change regression)
+    out_root = os.environ.get("VERIF_OUT") or VERIF
+    os.makedirs(os.path.join(out_root, "evidence"), exist_ok=True)
+    ev_path = os.path.join(out_root, "evidence", f"{prop}.json")
     with open(ev_path, "w") as fh:
         json.dump(evidence, fh, indent=1, sort_keys=True)
         fh.write("\n")
